@@ -75,6 +75,7 @@ func cmdRun(args []string) {
 	prefix := fs.String("prefix", "", "run only this decision prefix")
 	smtlog := fs.String("smtlog", "", "write worker 0's SMT transcript here")
 	cpuprof := fs.String("cpuprofile", "", "")
+	agroup := fs.Int("agroup", 1, "assertions per solver query")
 	fs.Parse(args)
 	p := loadProg(*repo, *harness)
 	if *cpuprof != "" {
@@ -93,7 +94,7 @@ func cmdRun(args []string) {
 	sort.Strings(names)
 	exit := 0
 	for _, n := range names {
-		opt := exec.Options{Workers: *workers, MaxSteps: 2000000, Unwind: *unwind, MaxPaths: *maxPaths, SolverKind: "z3", TimeoutMs: *tmo, OrderPolicy: *policy, MaxViol: 5, SampleEvery: 50, PanicIsViolation: *panicViol, Verbose: *verbose, OnlyPrefix: *prefix, SMTLog: *smtlog}
+		opt := exec.Options{Workers: *workers, MaxSteps: 2000000, Unwind: *unwind, MaxPaths: *maxPaths, SolverKind: "z3", TimeoutMs: *tmo, OrderPolicy: *policy, MaxViol: 5, SampleEvery: 50, PanicIsViolation: *panicViol, Verbose: *verbose, OnlyPrefix: *prefix, SMTLog: *smtlog, AssertGroup: *agroup}
 		ex := exec.NewExplorer(p, n, hs[n], opt)
 		t0 := time.Now()
 		ex.Explore()
